@@ -21,11 +21,12 @@ RULE = "E3 sibling agreement; E5 construction terms; E1 constants; E7 effect rea
 
 def run(ctx):
     P = ctx.P
-    rows = K.check_core_table(ctx, P, traits=("BlsSignaturePop",))
-    pop = [r for r in rows if r["tag"] == "BlsSignaturePop::POP_DST"]
-    ctx.floor("E3.pop", "POP-tag core calls", len(pop), 2)
-    K.check_purpose_separation(ctx, P)
-    check_tag_table(ctx, P)
+    rows = K.check_core_siblings(ctx, P, traits=("BlsSignaturePop",), methods_sign=("pop_prove",), methods_verify=("pop_verify",))
+    pop = [r for r in rows if r["fn"].name in ("pop_prove", "pop_verify")]
+    ctx.floor("E3.pop", "proof-of-possession core calls", len(pop), 2)
+    # the proof is bound to the key: both sides hash (a function of) the key itself
+    for r in pop:
+        ctx.ob("E5.pop-binds-key", r["fn"].key, r["msg"][0] in ("pk", "aug") or "PKBYTES" in K._canon_nf(r), "%s hashes %s - the message must contain the key's own bytes" % (r["fn"].key, r["nf"]), where=where(r["fn"], r["bb"]))
     # wrappers
     f = ctx.need_fn("E5.chain", "SecretKey<C>::proof_of_possession")
     if f is not None:
@@ -46,8 +47,8 @@ def run(ctx):
     if f is not None:
         ev = evaluate(f)
         r = strip_sites(ev.ret)
-        ok = r.op == "call" and B.cname(r) == "BlsSignatureCore::core_verify" and [B.peel(a).a[1] if B.peel(a).op == "param" else None for a in r.a[1][:2]] == ["pk", "sig"]
-        ctx.ob("E6.uses-all", "BlsSignaturePop::pop_verify", ok, "core_verify(pk, sig, to_bytes(pk), POP_DST): decision depends on the key and on the proof", where=where(f))
+        ok = r.op == "call" and B.cname(r) in ("BlsSignatureCore::core_verify", "BlsSignaturePop::verify") and [B.peel(a).a[1] if B.peel(a).op == "param" else None for a in r.a[1][:2]] == ["pk", "sig"]
+        ctx.ob("E6.uses-all", "BlsSignaturePop::pop_verify", ok, "pop_verify returns the verification of (pk, sig, f(pk)) directly: decision depends on the key and on the proof: %s" % show(r, 3), where=where(f))
     for fk, kind, subj in (("BlsSignatureCore::core_verify", "is_identity", ("param", "sig")), ("BlsSignatureCore::core_verify", "is_identity", ("param", "pk")), ("BlsSignatureCore::core_sign", "is_zero", ("param", "sk"))):
         R.check_result_guard(ctx, "E4.result", P, fk, kind, subj)
     F.check_no_effects(ctx, "E7.deterministic", P, ["SecretKey<C>::proof_of_possession", "ProofOfPossession<C>::verify", "SecretKey<C>::public_key"])
